@@ -123,7 +123,7 @@ func (r *remoteReplicator) Connect() bool {
 //  2. state != ready, do channel init like tcp three-way handshake.
 //     a. next remote replica index = current node's replica index, return true.
 //     b. last remote ack index < current node's smallest ack, need reset remote replica index, then return true.
-//     c. last remote ack index > current node's append index,
+//     c. last remote ack index >= current node's append index,
 //     need reset current append index/replica index, then return true.
 func (r *remoteReplicator) IsReady() bool {
 	stateVal := r.state.Load().(*state)
@@ -221,8 +221,10 @@ func (r *remoteReplicator) IsReady() bool {
 		r.ResetReplicaIndex(needResetReplicaIdx)
 		r.state.Store(&state{state: models.ReplicatorReadyState})
 		return true
-	case remoteLastReplicaAckIdx > appendIdx:
+	case remoteLastReplicaAckIdx >= appendIdx:
 		// new write data will be lost, because leader's lost old wal data
+		// NOTE: append index is next append index, if remote ack index == append index, follower already
+		// holds the message of next append index, cannot append at that index.
 		r.ResetAppendIndex(nextReplicaIdx)
 		r.statistics.ResetAppendIdx.Incr()
 	}
